@@ -174,6 +174,7 @@ func (n *cnode) histSince(m int) []histCall {
 type ctxKey string
 
 const labelKey ctxKey = "verif-label"
+const labelsKey ctxKey = "verif-labels"
 
 type cfgMod func(*centrifuge.Config)
 
@@ -235,6 +236,9 @@ func newNode(name string, forward bool, mods ...cfgMod) (*cnode, error) {
 		r := centrifuge.ConnectReply{}
 		if l, ok := ctx.Value(labelKey).(string); ok && l != "" {
 			r.Labels = map[string]string{"tier": l}
+		}
+		if m, ok := ctx.Value(labelsKey).(map[string]string); ok && m != nil {
+			r.Labels = m
 		}
 		return r, nil
 	}
@@ -306,6 +310,7 @@ type connSpec struct {
 	User    string
 	Session bool
 	Label   string
+	Labels  map[string]string // full label map (overrides Label)
 }
 
 type hconn struct {
@@ -328,6 +333,9 @@ func (n *cnode) connectInfo(spec connSpec, info string) (*hconn, error) {
 	}
 	ctx = centrifuge.SetCredentials(ctx, cred)
 	ctx = context.WithValue(ctx, labelKey, spec.Label)
+	if spec.Labels != nil {
+		ctx = context.WithValue(ctx, labelsKey, spec.Labels)
+	}
 	var tr centrifuge.Transport = t
 	if spec.Session {
 		tr = emuTransport{t}
